@@ -568,6 +568,7 @@ type result struct {
 	code uint64
 	out  []byte
 	msg  string
+	side [][2]string // Go-side observations that break the property: (signature, detail)
 }
 
 func runCase(c pcase) (res result) {
@@ -576,12 +577,54 @@ func runCase(c pcase) (res result) {
 			res = result{code: 98, msg: fmt.Sprint("panic: ", p)}
 		}
 	}()
-	body := append([]byte(nil), c.body...)
-	out, err := msgpackpatch.ApplyWithCondition(body, c.ops, c.cond)
-	if err != nil {
-		return result{code: errClass(err), msg: err.Error()}
+	clone := func() ([]byte, []msgpackpatch.Op, *msgpackpatch.Condition) {
+		body := append([]byte(nil), c.body...)
+		ops := make([]msgpackpatch.Op, len(c.ops))
+		for i, o := range c.ops {
+			ops[i] = msgpackpatch.Op{Kind: o.Kind, Path: o.Path, Value: append([]byte(nil), o.Value...)}
+			if o.Value == nil {
+				ops[i].Value = nil
+			}
+		}
+		var cond *msgpackpatch.Condition
+		if c.cond != nil {
+			cc := *c.cond
+			cc.Threshold = append([]byte(nil), c.cond.Threshold...)
+			cond = &cc
+		}
+		return body, ops, cond
 	}
-	return result{code: 0, out: out}
+	body, ops, cond := clone()
+	out, err := msgpackpatch.ApplyWithCondition(body, ops, cond)
+	res = result{code: errClass(err), out: out}
+	if err != nil {
+		res.msg = err.Error()
+		res.out = nil
+	}
+	// the inputs are read-only for the patch
+	if string(body) != string(c.body) {
+		res.side = append(res.side, [2]string{"input_body_mutated", fmt.Sprintf("body after the call: %x", body)})
+	}
+	for i := range ops {
+		if string(ops[i].Value) != string(c.ops[i].Value) || ops[i].Path != c.ops[i].Path {
+			res.side = append(res.side, [2]string{"input_op_mutated", fmt.Sprintf("op %d after the call: %q %x", i, ops[i].Path, ops[i].Value)})
+		}
+	}
+	// a second evaluation of the same patch gives the same answer (no state between calls)
+	b2, o2, c2 := clone()
+	out2, err2 := msgpackpatch.ApplyWithCondition(b2, o2, c2)
+	if errClass(err2) != res.code || string(out2) != string(res.out) && err == nil {
+		res.side = append(res.side, [2]string{"second_evaluation_differs", fmt.Sprintf("second call: %s %x", errNames[errClass(err2)], out2)})
+	}
+	// Apply is ApplyWithCondition without a condition
+	if c.cond == nil {
+		b3, o3, _ := clone()
+		out3, err3 := msgpackpatch.Apply(b3, o3)
+		if errClass(err3) != res.code || string(out3) != string(res.out) && err == nil {
+			res.side = append(res.side, [2]string{"apply_differs_from_apply_with_condition", fmt.Sprintf("Apply: %s %x", errNames[errClass(err3)], out3)})
+		}
+	}
+	return res
 }
 
 // bl prints a byte string as B 0x1<hex> (Patch/Check.v B): one numeral per string.
@@ -677,6 +720,191 @@ func genCase(r *common.Rng) pcase {
 	return c
 }
 
+
+// ---- chained ops: several ops of one patch addressing the same slot ---------------------------
+//
+// The independent generator above almost never lets a later op read what an earlier op of the
+// same patch wrote.  A chain picks one focus slot (an existing leaf / array / map, a duplicate
+// key, an array element, or a missing nested field) and emits 2-6 ops that all address it or its
+// immediate neighbourhood (slot, slot[], slot[i], slot.k, the parent), in patterns where every
+// op depends on the state left by the previous ones: retype then INC, delete then re-create,
+// create then overwrite the created parent, append across the 15/16 boundary then remove, merge
+// then INC a merged key, ...
+
+func numOf(r *common.Rng, class int) []byte { return numLike(r, &node{kind: 0, class: class}) }
+
+func mkop(kind int, path string, v []byte) msgpackpatch.Op {
+	return msgpackpatch.Op{Kind: msgpackpatch.OpKind(kind), Path: path, Value: v}
+}
+
+func scalarOrNum(r *common.Rng) []byte {
+	if r.Chance(60) {
+		return numOf(r, 1+r.Intn(3))
+	}
+	v, _ := genLeaf(r)
+	return v
+}
+
+func smallMap(r *common.Rng, keys []string, class int) []byte {
+	out := []byte{0x80 | byte(len(keys))}
+	for _, k := range keys {
+		out = append(out, encStr(k, 0)...)
+		out = append(out, numOf(r, class)...)
+	}
+	return out
+}
+
+func genChain(r *common.Rng) pcase {
+	doc := genBody(r)
+	var locs []located
+	collect(doc, "", &locs)
+	c := pcase{tag: "chain"}
+	// focus slot
+	focus := "n"
+	var target *node
+	x := r.Intn(100)
+	switch {
+	case x < 55 && len(locs) > 0:
+		l := locs[r.Intn(len(locs))]
+		focus, target = l.path, l.n
+	case x < 70:
+		focus = []string{"new", "zz.q", "new.sub.deep", "a.new"}[r.Intn(4)]
+	default:
+		// force a top-level numeric leaf (and sometimes a duplicate of its key) into the body
+		cl := 1 + r.Intn(3)
+		leaf := &node{kind: 0, raw: numOf(r, cl), class: cl}
+		focus = []string{"n", "cnt", "f"}[r.Intn(3)]
+		pos := r.Intn(len(doc.kids) + 1)
+		ins := func(at int, k string, v *node) {
+			doc.keys = append(doc.keys[:at], append([]string{k}, doc.keys[at:]...)...)
+			doc.khdr = append(doc.khdr[:at], append([]int{0}, doc.khdr[at:]...)...)
+			doc.kids = append(doc.kids[:at], append([]*node{v}, doc.kids[at:]...)...)
+		}
+		ins(pos, focus, leaf)
+		if r.Chance(25) {
+			cl2 := 1 + r.Intn(3)
+			ins(r.Intn(len(doc.kids)+1), focus, &node{kind: 0, raw: numOf(r, cl2), class: cl2})
+		}
+		target = nil
+		for i, k := range doc.keys { // first match is the addressed one
+			if k == focus {
+				target = doc.kids[i]
+				break
+			}
+		}
+	}
+	c.body = doc.enc()
+	cls := 1 + r.Intn(3)
+	if target != nil && target.kind == 0 && target.class >= 1 && target.class <= 3 && r.Chance(60) {
+		cls = target.class
+	}
+	num := func() []byte { return numOf(r, cls) }
+	add := func(kind int, path string, v []byte) { c.ops = append(c.ops, mkop(kind, path, v)) }
+	switch r.Intn(14) {
+	case 0: // retype, then increment what was just stored (same class, other width)
+		add(0, focus, num())
+		add(2, focus, num())
+		if r.Bool() {
+			add(2, focus, num())
+		}
+	case 1: // increment, overwrite, increment
+		add(2, focus, num())
+		add(0, focus, numOf(r, 1+r.Intn(3)))
+		add(2, focus, num())
+	case 2: // delete then re-create through INC / SET, then use it again
+		add(1, focus, nil)
+		if r.Bool() {
+			add(2, focus, num())
+		} else {
+			add(0, focus, scalarOrNum(r))
+		}
+		add(2, focus, num())
+	case 3: // scalar over whatever is there, then container-style ops on it
+		add(0, focus, scalarOrNum(r))
+		add([]int{3, 4, 7, 6, 5}[r.Intn(5)], focus+[]string{"[]", "", "[0]"}[r.Intn(3)], scalarOrNum(r))
+	case 4: // grow an array across the fixarray boundary, then remove from it
+		k := 1 + r.Intn(4)
+		if target != nil && target.kind == 2 && len(target.kids) >= 12 {
+			k = 16 - len(target.kids) + r.Intn(2)
+		}
+		var last []byte
+		for i := 0; i < k && i < 5; i++ {
+			last = scalarOrNum(r)
+			add(3+r.Intn(2), focus+"[]", last)
+		}
+		switch r.Intn(4) {
+		case 0:
+			add(5, focus+"[-1]", nil)
+		case 1:
+			add(5, focus+"[0]", nil)
+		case 2:
+			add(6, focus, last)
+		case 3:
+			add(2, focus+"[-1]", num())
+		}
+	case 5: // set an element, then increment / remove the same element
+		idx := []string{"[0]", "[-1]", "[1]"}[r.Intn(3)]
+		add(0, focus+idx, num())
+		add(2, focus+idx, num())
+		if r.Bool() {
+			add(5, focus+idx, nil)
+			add(2, focus+idx, num())
+		}
+	case 6: // merge numeric fields, then increment / delete / re-merge one of them
+		add(7, focus, smallMap(r, []string{"k", "j"}, cls))
+		add(2, focus+".k", num())
+		if r.Bool() {
+			add(7, focus, smallMap(r, []string{"k"}, 1+r.Intn(3)))
+			add(2, focus+".k", num())
+		} else {
+			add(1, focus+".j", nil)
+			add(2, focus+".j", num())
+		}
+	case 7: // create a nested path, then replace a created parent, then go below it again
+		add(0, focus+".p.q", scalarOrNum(r))
+		add(2, focus+".p.r", num())
+		add(0, focus+".p", scalarOrNum(r))
+		add([]int{0, 2, 1}[r.Intn(3)], focus+".p.q", num())
+	case 8: // the same INC repeated (counter semantics), mixed widths
+		for i, k := 0, 2+r.Intn(4); i < k; i++ {
+			add(2, focus, num())
+		}
+	case 9: // SET the same slot repeatedly with values of different kinds, last one wins
+		for i, k := 0, 2+r.Intn(3); i < k; i++ {
+			add(0, focus, scalarOrNum(r))
+		}
+		if r.Bool() {
+			add(2, focus, num())
+		}
+	case 10: // delete twice, remove_val / remove_at on a deleted slot
+		add(1, focus, nil)
+		add([]int{1, 6, 5, 3}[r.Intn(4)], focus+[]string{"", "", "[0]", "[]"}[r.Intn(4)], scalarOrNum(r))
+		add(0, focus, scalarOrNum(r))
+	case 11: // prepend then address index 0 / last
+		v := scalarOrNum(r)
+		add(4, focus+"[]", v)
+		add([]int{0, 2, 5}[r.Intn(3)], focus+"[0]", num())
+		add(6, focus, v)
+	case 12: // an op on the slot, a failing op afterwards (atomicity with earlier writes)
+		add(0, focus, scalarOrNum(r))
+		add(2, focus, num())
+		add([]int{5, 2, 0}[r.Intn(3)], []string{focus + "[99]", focus + ".x.y[0]", "a..b"}[r.Intn(3)], num())
+	default: // increment then a container value on the same slot (known: opaque afterwards)
+		add(2, focus, num())
+		add(0, focus, genContainerValue(r))
+		add([]int{2, 0, 3}[r.Intn(3)], focus+[]string{"", ".b", "[]"}[r.Intn(3)], num())
+	}
+	if r.Chance(35) {
+		// a condition on the focus slot (evaluated on the pre-patch state only)
+		thr := num()
+		if target != nil && target.kind == 0 && r.Chance(50) {
+			thr = numLike(r, target)
+		}
+		c.cond = &msgpackpatch.Condition{Path: focus, Op: msgpackpatch.CondOp(r.Intn(8)), Threshold: thr}
+	}
+	return c
+}
+
 // malformed / unusual bodies: truncations, a bad byte, non-map roots, non-string keys, trailing bytes
 func genBadBody(r *common.Rng) pcase {
 	c := genCase(r)
@@ -743,12 +971,12 @@ func witnesses() []pcase {
 func main() {
 	a := common.ParseArgs()
 	run := common.NewRun(a, "C13", "HV.Patch.Check")
-	run.Meta.Rule = "a case is (msgpack body, 0-7 ops, optional condition) given to the real msgpackpatch.ApplyWithCondition; bodies are generated documents (depth <= 4, every leaf code, minimal and non-minimal headers, duplicate keys, 13-17 element containers) plus a stream of truncated/corrupted/non-map bodies; paths come from the document (existing, missing, negative/out-of-range indices, append marker) plus malformed path strings; values are well-formed scalars, containers, class-matched numeric deltas, and malformed byte strings; non-trivial = the patch succeeded and changed the body, or failed after a successful parse with an error raised by an op or the condition"
+	run.Meta.Rule = "a case is (msgpack body, 0-7 ops, optional condition) given to the real msgpackpatch.ApplyWithCondition; bodies are generated documents (depth <= 4, every leaf code, minimal and non-minimal headers, duplicate keys, 13-17 element containers) plus a stream of truncated/corrupted/non-map bodies; paths come from the document (existing, missing, negative/out-of-range indices, append marker) plus malformed path strings; values are well-formed scalars, containers, class-matched numeric deltas, and malformed byte strings; a third stream are chains: 2-6 ops of one patch on the same slot and its neighbourhood (retype then INC, delete then re-create, create then overwrite the parent, append across 15/16 then remove, merge then INC a merged key, repeated INC/SET, duplicate keys), so that later ops read what earlier ops wrote; every patch is also evaluated a second time and, without a condition, through Apply (same result required), and the caller's body/op bytes must be unchanged; non-trivial = the patch succeeded and changed the body, or failed after a successful parse with an error raised by an op or the condition"
 	rng := common.NewRng(a.Seed, "C13")
 
-	n, nbad := 2400, 240
+	n, nbad, nchain := 2000, 200, 1000
 	if a.Tier == "thorough" {
-		n, nbad = 40000, 3000
+		n, nbad, nchain = 30000, 3000, 15000
 	}
 	var cases []pcase
 	cases = append(cases, witnesses()...)
@@ -758,13 +986,24 @@ func main() {
 	for i := 0; i < nbad; i++ {
 		cases = append(cases, genBadBody(rng))
 	}
+	crng := rng.Fork("chain")
+	for i := 0; i < nchain; i++ {
+		cases = append(cases, genChain(crng))
+	}
 	res := make([]result, len(cases))
 	common.Parallel(len(cases), 16, func(i int) { res[i] = runCase(cases[i]) })
 	for i, c := range cases {
 		r := res[i]
 		_, perr := msgpackpatch.Parse(c.body)
 		nontrivial := perr == nil && ((r.code == 0 && string(r.out) != string(c.body)) || (r.code != 0 && len(c.ops) > 0))
-		run.Add(coqCase(c, r), descr(c, r), nontrivial)
+		idx := run.Add(coqCase(c, r), descr(c, r), nontrivial)
+		for _, sd := range r.side {
+			clause := "a failing or succeeding patch leaves the caller's body and op values unchanged"
+			if sd[0] == "second_evaluation_differs" || sd[0] == "apply_differs_from_apply_with_condition" {
+				clause = "a patch produces exactly the document the documented semantics describe (same input, same result, through either entry point)"
+			}
+			run.Violate(idx, clause, sd[0], sd[1])
+		}
 		run.Hist("result_" + errNames[r.code])
 		run.Hist(fmt.Sprintf("nops_%d", len(c.ops)))
 		for _, o := range c.ops {
